@@ -53,6 +53,8 @@ static uint64_t steps = 0, switches = 0, sig = 1469598103934665603ULL;
 static uint64_t pct_points[16];
 static uint64_t pct_low = 0;
 static uint64_t starve_until = 0, allow_until = 0;
+static uint64_t enum_alts[3];
+static int enum_stage;
 static sched_stats_t stats;
 static int cond_class_hint = 0, cond_auto_counter = 0;
 
@@ -184,6 +186,24 @@ static int pick_next(int self_ok) {
   if (n == 0) return -1;
   if (n == 1) return cand[0];
   switch (cfg.strategy) {
+    case SS_ENUM: {
+      int dflt = cand[0], nalt = n - 1, k;
+      if (me >= 0 && self_ok && runnable(&threads[me])) dflt = me;
+      if (enum_stage < cfg.enum_n && cfg.enum_target[enum_stage] > enum_alts[enum_stage] &&
+          cfg.enum_target[enum_stage] <= enum_alts[enum_stage] + (uint64_t)nalt) {
+        uint64_t want = cfg.enum_target[enum_stage] - enum_alts[enum_stage];   /* 1..nalt */
+        int chosen = -1;
+        for (i = 0, k = 0; i < n; i++) {
+          if (cand[i] == dflt) continue;
+          if ((uint64_t)++k == want) { chosen = cand[i]; break; }
+        }
+        enum_alts[enum_stage] += (uint64_t)nalt;
+        enum_stage++;
+        return chosen;
+      }
+      enum_alts[enum_stage < 2 ? enum_stage : 2] += (uint64_t)nalt;
+      return dflt;
+    }
     case SS_PCT: {
       int best = cand[0];
       for (i = 1; i < n; i++) if (threads[cand[i]].prio > threads[best].prio) best = cand[i];
@@ -264,6 +284,8 @@ static void block_and_switch(int kind) {
 
 uint64_t sched_step(void) { return steps; }
 uint64_t sched_switches(void) { return switches; }
+uint64_t sched_enum_alts(int stage) { return stage >= 0 && stage < 3 ? enum_alts[stage] : 0; }
+int sched_enum_taken(void) { return enum_stage; }
 uint64_t sched_signature(void) { return sig; }
 int sched_self(void) { return self_id; }
 int sched_active(void) { return active; }
@@ -298,6 +320,8 @@ void sched_start(const sched_cfg_t *c) {
   pct_low = 1000;
   for (i = 0; i < 16; i++) pct_points[i] = c->pct_len ? 1 + rnd() % c->pct_len : 0;
   starve_until = allow_until = 0;
+  enum_alts[0] = enum_alts[1] = enum_alts[2] = 0;
+  enum_stage = 0;
   cond_auto_counter = 0;
   cond_class_hint = 0;
   active = 1;
